@@ -67,9 +67,10 @@ def module_path(mod: str) -> str:
     return os.path.join(LEAN_DIR, *mod.split(".")) + ".lean"
 
 
-def theorems_of(mod: str, prop: str) -> list[str]:
+def theorems_of(mod: str, prop: str, extra=()) -> list[str]:
     src = strip_comments(open(module_path(mod)).read())
-    return re.findall(r"^theorem\s+(" + prop + r"_[A-Za-z0-9_']+)", src, re.M)
+    pref = "|".join([re.escape(prop + "_")] + [re.escape(e) for e in extra])
+    return re.findall(r"^theorem\s+((?:" + pref + r")[A-Za-z0-9_']+)", src, re.M)
 
 
 def grep_forbidden() -> list[str]:
@@ -125,7 +126,7 @@ def build_and_audit(prop: str, mod, tier: str):
     # obligations = every `theorem <prop>_*` of the property's modules
     thms = []
     for m in mods:
-        for t in theorems_of(m, prop):
+        for t in theorems_of(m, prop, getattr(mod, "EXTRA_THEOREM_PREFIXES", ())):
             thms.append((m, t))
     info["obligations"] = len(thms)
     info["theorems"] = [t for _, t in thms]
